@@ -88,6 +88,7 @@ func (p *Program) initCancelReader(cancel bool) error {
 	}
 
 	p.readLoopDone = make(chan struct{})
+	verifPause("reader: spawn")
 	go p.readLoop()
 
 	return nil
@@ -95,6 +96,7 @@ func (p *Program) initCancelReader(cancel bool) error {
 
 func (p *Program) readLoop() {
 	defer close(p.readLoopDone)
+	defer verifPause("reader: exit")
 
 	err := readInputs(p.ctx, p.msgs, p.cancelReader)
 	if !errors.Is(err, io.EOF) && !errors.Is(err, cancelreader.ErrCanceled) {
